@@ -48,6 +48,22 @@ namespace {
 
 const double EPS = 0x1p-52;
 const char *KNOWN_F8 = "amr_block_wall_lookup";
+// a position within a few ulp below a wall whose floating point index rounds
+// up to the next integer (child index 2 / block index n / cell index n)
+const char *KNOWN_AMR_UP = "amr_index_rounds_up";
+const char *KNOWN_CART_UP = "cart_index_rounds_up";
+// AMRDensityGrid::interact: a photon that crosses a periodic boundary into a
+// neighbour that is more refined than the cell it leaves is put into the wrong
+// child (the child is selected with the un-wrapped wall position)
+const char *KNOWN_AMR_WRAP = "amr_periodic_refined_neighbour";
+// AMRDensityGrid::interact: a photon absorbed in the last cell before an open
+// box face (heading for that face) is reported as escaped (end()), because the
+// cell pointer has already been advanced to the (null) neighbour
+const char *KNOWN_AMR_LAST = "amr_absorbed_in_last_cell";
+// AMRDensityGrid::interact: in a periodic dimension that consists of a single
+// unrefined block the neighbour across the periodic face is the cell itself;
+// no periodic correction is applied and the loop never advances (endless loop)
+const char *KNOWN_AMR_SELF = "amr_periodic_single_block";
 
 // ------------------------------------------------------------------ utilities
 uint64_t mix64(uint64_t x) {
@@ -226,6 +242,31 @@ std::vector<Seg> ray_segments(const std::vector<BCell> &cells, const Geo &g,
     for (int sy = smin[1]; sy <= smax[1]; ++sy)
       for (int sz = smin[2]; sz <= smax[2]; ++sz) {
         const int s[3] = {sx, sy, sz};
+        {
+          // quick reject: does the ray touch this image of the whole box?
+          LD b0 = 0.L, b1 = tmax;
+          bool miss = false;
+          for (int i = 0; i < 3 && !miss; ++i) {
+            const LD lo = (LD)g.a[i] + (LD)s[i] * (LD)g.L[i];
+            const LD hi = lo + (LD)g.L[i];
+            const LD pad = 1e-9L * (LD)g.L[i];
+            if (r.d[i] == 0.) {
+              if ((LD)r.p[i] < lo - pad || (LD)r.p[i] > hi + pad)
+                miss = true;
+            } else {
+              LD ta = (lo - pad - (LD)r.p[i]) / (LD)r.d[i];
+              LD tb = (hi + pad - (LD)r.p[i]) / (LD)r.d[i];
+              if (ta > tb)
+                std::swap(ta, tb);
+              b0 = std::max(b0, ta);
+              b1 = std::min(b1, tb);
+              if (b1 < b0)
+                miss = true;
+            }
+          }
+          if (miss)
+            continue;
+        }
         for (size_t ic = 0; ic < cells.size(); ++ic) {
           const BCell &c = cells[ic];
           LD t0 = 0.L, t1 = tmax;
@@ -275,14 +316,29 @@ struct RayExpect {
   std::vector<LD> path;                // expected path per cell
   LD tau_used = 0;
   size_t nseg = 0;
+  std::vector<Seg> segs;
 };
+
+// travelled length at which the optical depth 'tau' is reached (inf if it is not
+// reached on the given segments)
+template <typename CELLS> LD l_of_tau(const std::vector<Seg> &segs, const CELLS &cells, LD tau) {
+  LD acc = 0.L;
+  for (const Seg &s : segs) {
+    const LD k = cells[s.cell].kappa;
+    const LD dt = s.t1 - s.t0;
+    if (k > 0.L && acc + k * dt >= tau)
+      return s.t0 + std::max(0.L, (tau - acc) / k);
+    acc += k * dt;
+  }
+  return INFINITY;
+}
 
 RayExpect ray_expect(const std::vector<BCell> &cells, const Geo &g,
                      const Ray &r) {
   RayExpect e;
   e.l_exit = ray_exit(g, r);
-  LD tmax = std::isinf((double)e.l_exit) ? 4.L * g.diag() : e.l_exit;
-  for (int round = 0; round < 5; ++round) {
+  LD tmax = std::min(e.l_exit, 4.L * (LD)g.diag());
+  for (int round = 0; round < 3; ++round) {
     const std::vector<Seg> segs = ray_segments(cells, g, r, tmax);
     e.path.assign(cells.size(), 0.L);
     LD tau = 0.L;
@@ -302,11 +358,12 @@ RayExpect ray_expect(const std::vector<BCell> &cells, const Geo &g,
       e.path[s.cell] += dt;
     }
     e.tau_used = tau;
-    if (!std::isinf((double)e.l_abs) || !std::isinf((double)e.l_exit)) {
+    e.segs = segs;
+    if (!std::isinf((double)e.l_abs) || tmax >= e.l_exit) {
       e.l_end = std::min(e.l_abs, e.l_exit);
       return e;
     }
-    tmax *= 4.L;
+    tmax = std::min(e.l_exit, tmax * 4.L);
   }
   e.too_long = true;
   return e;
@@ -399,11 +456,21 @@ void gen_direction(double d[3], std::string &cls) {
 
 // a position in the half-open box; 'walls' are candidate wall coordinates per
 // dimension (documented geometry of the grid)
+// Upper limit as the photon producers of the code clamp it
+// (IsotropicContinuousPhotonSource: top - epsilon * side).
 double clamp_half_open(const Geo &g, int i, double x) {
   if (x < g.a[i])
     x = g.a[i];
+  x = std::min(x, g.top(i) - EPS * g.L[i]);
   if (!(x < g.top(i)))
     x = std::nextafter(g.top(i), -INFINITY);
+  return x;
+}
+// a position "just below" an interior wall: below it by the same margin
+double just_below(const Geo &g, int i, double wall) {
+  double x = wall - EPS * g.L[i];
+  if (!(x < wall))
+    x = std::nextafter(wall, -INFINITY);
   return x;
 }
 
@@ -561,6 +628,51 @@ uint32_t fp_block_index(const Geo &g, const int nb[3], int i, double x) {
   return (uint32_t)((uint_fast32_t)nb[i] * (x - g.a[i]) / g.L[i]);
 }
 
+// Matcher for the finding "index overflow": replays the descent of
+// AMRGrid::get_cell / AMRGridCell::get_cell with the code's own floating point
+// expressions (through the model tree) and reports whether, for this position
+// inside the half-open box, a block index comes out as n_block or a child
+// index comes out as 2 (the code then reads _top_level / _children out of
+// bounds: wrong cell, "Cell does not exist" abort or crash).
+bool amr_fp_index_overflow(const MTree &M, const Geo &g, const double x[3]) {
+  double sides[3], anchor[3];
+  uint_fast32_t fb[3];
+  for (int i = 0; i < 3; ++i) {
+    sides[i] = g.L[i] / (uint_fast32_t)M.nb[i];
+    fb[i] = (uint_fast32_t)M.nb[i] * (x[i] - g.a[i]) / g.L[i];
+    if (fb[i] >= (uint_fast32_t)M.nb[i])
+      return true;
+    anchor[i] = g.a[i] + fb[i] * sides[i];
+  }
+  int node = M.root((int)fb[0], (int)fb[1], (int)fb[2]);
+  while (!M.nodes[node].leaf()) {
+    uint_fast8_t ix[3];
+    for (int i = 0; i < 3; ++i) {
+      ix[i] = 2 * (x[i] - anchor[i]) / sides[i];
+      if (ix[i] >= 2)
+        return true;
+    }
+    for (int i = 0; i < 3; ++i) {
+      sides[i] *= 0.5;
+      anchor[i] += ix[i] * sides[i];
+    }
+    node = M.nodes[node].child[4 * ix[0] + 2 * ix[1] + ix[2]];
+  }
+  return false;
+}
+
+// the Cartesian cell index the way CartesianDensityGrid computes it
+bool cart_fp_index_rounds_up(const Geo &g, const int64_t n[3], const double x[3]) {
+  for (int i = 0; i < 3; ++i) {
+    const double cs = g.L[i] / n[i];
+    const double inv = 1. / cs;
+    const int_fast32_t ix = (x[i] - g.a[i]) * inv;
+    if (ix >= n[i] && x[i] < g.top(i) && g.top(i) - x[i] <= 4. * EPS * (g.L[i] + std::abs(x[i])))
+      return true;
+  }
+  return false;
+}
+
 // ---------------------------------------------------------------------------
 //                       sub-check amr_tree (AMRGrid<size_t>)
 // ---------------------------------------------------------------------------
@@ -602,12 +714,16 @@ VCase gen_amr_tree() {
     }
   }
   c.D("qsel", qsel).D("qfrac", qfrac).I("qmode", qmode);
+  // queries that fall into an OPEN known-finding class are only executed in
+  // this fraction of the cases (elsewhere they are skipped, so that the search
+  // continues behind the known classes)
+  c.I("probe_known", vr::coin(0.15));
   return c;
 }
 
 struct AmrTreeFail {
   std::string msg;
-  bool known;
+  std::string known; // matcher name or empty
 };
 
 VResult o_amr_tree(const VCase &c) {
@@ -636,7 +752,7 @@ VResult o_amr_tree(const VCase &c) {
   int maxlevel_seen = level0;
 
   std::vector<AmrTreeFail> fails;
-  auto addfail = [&](const std::string &m, bool known) {
+  auto addfail = [&](const std::string &m, const std::string &known) {
     if (fails.size() < 50)
       fails.push_back(AmrTreeFail{m, known});
   };
@@ -646,7 +762,7 @@ VResult o_amr_tree(const VCase &c) {
     if (grid.get_number_of_cells() != lv.size()) {
       addfail(fmt("%s: get_number_of_cells() = %zu, model has %zu leaves", when,
                   (size_t)grid.get_number_of_cells(), lv.size()),
-              false);
+              "");
       return false;
     }
     // enumeration first -> next must be exactly the Morton (depth first) order
@@ -656,28 +772,25 @@ VResult o_amr_tree(const VCase &c) {
     while (key != grid.get_max_key()) {
       if (idx >= lv.size()) {
         addfail(fmt("%s: enumeration yields more than %zu keys (extra key %llx)",
-                    when, lv.size(), (unsigned long long)key),
-                false);
+                    when, lv.size(), (unsigned long long)key), "");
         return false;
       }
       const uint64_t mk = M.key(lv[idx]);
       if (key != mk) {
         addfail(fmt("%s: enumeration step %zu: key %llx, expected %llx (level %d)",
                     when, idx, (unsigned long long)key, (unsigned long long)mk,
-                    M.nodes[lv[idx]].level),
-                false);
+                    M.nodes[lv[idx]].level), "");
         return false;
       }
       AMRGridCell<size_t> &cell = grid[key];
       if (!cell.is_single_cell()) {
-        addfail(fmt("%s: key %llx does not address a leaf", when, (unsigned long long)key), false);
+        addfail(fmt("%s: key %llx does not address a leaf", when, (unsigned long long)key), "");
         return false;
       }
       cell.value() = idx;
       if ((int)cell.get_level() != M.nodes[lv[idx]].level) {
         addfail(fmt("%s: key %llx: level %d, expected %d", when, (unsigned long long)key,
-                    (int)cell.get_level(), M.nodes[lv[idx]].level),
-                false);
+                    (int)cell.get_level(), M.nodes[lv[idx]].level), "");
         return false;
       }
       // geometry against the real-number box of the model
@@ -691,8 +804,7 @@ VResult o_amr_tree(const VCase &c) {
           addfail(fmt("%s: key %llx geometry dim %d: anchor %.17g side %.17g, expected "
                       "%.17Lg / %.17Lg",
                       when, (unsigned long long)key, i, gb.get_anchor()[i],
-                      gb.get_sides()[i], lo[i], hi[i] - lo[i]),
-                  false);
+                      gb.get_sides()[i], lo[i], hi[i] - lo[i]), "");
           return false;
         }
       }
@@ -702,11 +814,11 @@ VResult o_amr_tree(const VCase &c) {
       key = grid.get_next_key(key);
     }
     if (idx != lv.size()) {
-      addfail(fmt("%s: enumeration visits %zu leaves, the grid has %zu", when, idx, lv.size()), false);
+      addfail(fmt("%s: enumeration visits %zu leaves, the grid has %zu", when, idx, lv.size()), "");
       return false;
     }
     if (std::abs(vsum - (LD)g.volume()) > 8. * EPS * (double)vabs * (lv.size() + 8)) {
-      addfail(fmt("%s: sum of leaf volumes %.17Lg != box volume %.17g", when, vsum, g.volume()), false);
+      addfail(fmt("%s: sum of leaf volumes %.17Lg != box volume %.17g", when, vsum, g.volume()), "");
       return false;
     }
     return true;
@@ -774,7 +886,7 @@ VResult o_amr_tree(const VCase &c) {
           if (ngb != nullptr)
             addfail(fmt("node %llx dir %d: neighbour outside a non-periodic box is not null",
                         (unsigned long long)M.key((int)id), dir),
-                    false);
+                    "");
           continue;
         }
         const int exp = M.cover(gcx, n.level, n.level);
@@ -790,7 +902,7 @@ VResult o_amr_tree(const VCase &c) {
                                                     ngb->get_geometry().get_anchor()[2])
                                                     .c_str(),
                       (unsigned long long)M.key(exp), M.nodes[exp].level),
-                  false);
+                  "");
           continue;
         }
         // mutual: a same-level neighbour must point back
@@ -799,7 +911,7 @@ VResult o_amr_tree(const VCase &c) {
           if (back != &cell)
             addfail(fmt("node %llx dir %d: same-level neighbour does not point back",
                         (unsigned long long)M.key((int)id), dir),
-                    false);
+                    "");
         }
       }
     }
@@ -807,7 +919,12 @@ VResult o_amr_tree(const VCase &c) {
 
   // ------------------------------------------------------------ position lookup
   const int nq = (int)c.dv("qsel").size();
-  int nwall = 0, nblockwall = 0;
+  int nwall = 0, nblockwall = 0, ntie = 0, nskipped = 0;
+  const bool probe_known = c.i("probe_known") != 0;
+  const auto open_known = vr::split_env("VERIF_KNOWN");
+  std::map<uint64_t, size_t> keyleaf;
+  for (size_t j = 0; j < lv.size(); ++j)
+    keyleaf[M.key(lv[j])] = j;
   for (int q = 0; q < nq; ++q) {
     size_t li = (size_t)(c.d("qsel", q) * lv.size());
     if (li >= lv.size())
@@ -826,7 +943,7 @@ VResult o_amr_tree(const VCase &c) {
     LD lo[3], hi[3];
     M.real_box(id, g, lo, hi);
     double x[3];
-    bool onwall[3] = {false, false, false};
+    bool onwall[3] = {false, false, false}, below[3] = {false, false, false};
     for (int i = 0; i < 3; ++i) {
       const int mode = (int)c.i("qmode", 3 * q + i);
       const double f = c.d("qfrac", 3 * q + i);
@@ -835,13 +952,13 @@ VResult o_amr_tree(const VCase &c) {
         x[i] = a; // exactly on the lower wall of the leaf (documented geometry)
         onwall[i] = true;
       } else if (mode == 2) {
-        // the largest double strictly below the upper wall
+        // a few ulp below the upper wall (the walls themselves are only defined
+        // up to rounding: anchor + side vs. the anchor of the next cell)
         const double top = std::min(a + s, (double)hi[i]);
-        x[i] = std::nextafter(top, -INFINITY);
-        if ((LD)x[i] >= hi[i])
-          x[i] = std::nextafter(x[i], -INFINITY);
+        x[i] = just_below(g, i, top);
         if (x[i] < a)
           x[i] = a;
+        below[i] = true;
       } else {
         x[i] = a + (0.05 + 0.9 * f) * s;
       }
@@ -861,46 +978,100 @@ VResult o_amr_tree(const VCase &c) {
       } else if (fb != (uint32_t)n.b[i])
         other_dims_ok = false;
     }
-    const bool known = f8 && other_dims_ok;
+    const std::string known = amr_fp_index_overflow(M, g, x)
+                                  ? KNOWN_AMR_UP
+                                  : ((f8 && other_dims_ok) ? KNOWN_F8 : "");
+    if (!known.empty() && !probe_known && open_known.count(known)) {
+      ++nskipped;
+      continue;
+    }
     const Vec pos(x[0], x[1], x[2]);
+    // classification of an answer that is not the expected leaf:
+    //  0 = wrong, 1 = tie of the geometry (position on an in-block wall is given
+    //  to the lower sibling, whose closed box contains it)
+    auto classify = [&](uint64_t kk) -> int {
+      auto itk = keyleaf.find(kk);
+      if (itk == keyleaf.end())
+        return 0;
+      uint64_t k2 = kk;
+      const Box<> b2 = grid[k2].get_geometry();
+      for (int i = 0; i < 3; ++i) {
+        const double a2 = b2.get_anchor()[i], t2 = a2 + b2.get_sides()[i];
+        // closed box of the answer, widened by a few ulp (anchors are sums of
+        // rounded terms: the top of a cell and the anchor of the next one agree
+        // only up to rounding)
+        const double tolw = 8. * EPS * (scale + g.L[i]);
+        if (x[i] >= a2 - tolw && x[i] <= t2 + tolw) {
+          // ... unless the position sits on a top-level block wall and was
+          // given to the block below: there the lookup uses another formula
+          // (known finding F8)
+          if (onwall[i] && n.ic[i] == 0 && n.b[i] > 0 && x[i] >= t2 - tolw)
+            return 0;
+          continue;
+        }
+        return 0;
+      }
+      return 1;
+    };
     try {
+      c16::announce(known);
       const amrkey_t kk = grid.get_key(pos);
+      uint64_t accepted = mk;
       if (kk != mk) {
-        addfail(fmt("get_key(%.17g, %.17g, %.17g) = %llx, but the position lies in leaf "
-                    "%llx (level %d, anchor %.17g %.17g %.17g, sides %.17g %.17g %.17g)",
-                    x[0], x[1], x[2], (unsigned long long)kk, (unsigned long long)mk,
-                    n.level, gb.get_anchor()[0], gb.get_anchor()[1], gb.get_anchor()[2],
-                    gb.get_sides()[0], gb.get_sides()[1], gb.get_sides()[2]),
-                known);
-        continue;
+        if (classify(kk) == 1) {
+          ++ntie;
+          accepted = kk;
+        } else {
+          addfail(fmt("get_key(%.17g, %.17g, %.17g) = %llx, but the position lies in leaf "
+                      "%llx (level %d, anchor %.17g %.17g %.17g, sides %.17g %.17g %.17g)",
+                      x[0], x[1], x[2], (unsigned long long)kk, (unsigned long long)mk,
+                      n.level, gb.get_anchor()[0], gb.get_anchor()[1], gb.get_anchor()[2],
+                      gb.get_sides()[0], gb.get_sides()[1], gb.get_sides()[2]),
+                  known);
+          continue;
+        }
       }
       const size_t v = grid.get_cell(pos);
-      if (v != li) {
-        addfail(fmt("get_cell(%.17g, %.17g, %.17g) returns leaf #%zu, expected #%zu (key %llx)",
-                    x[0], x[1], x[2], v, li, (unsigned long long)mk),
+      if (v != keyleaf[accepted]) {
+        addfail(fmt("get_cell(%.17g, %.17g, %.17g) returns leaf #%zu, get_key names leaf #%zu "
+                    "(key %llx)",
+                    x[0], x[1], x[2], v, keyleaf[accepted], (unsigned long long)accepted),
                 known);
         continue;
       }
+      c16::announce("");
     } catch (const VerifAbort &e) {
+      c16::announce("");
       addfail(fmt("position lookup aborts for (%.17g, %.17g, %.17g) inside leaf %llx "
                   "(level %d): %s",
                   x[0], x[1], x[2], (unsigned long long)mk, n.level, e.msg.c_str()),
               known);
     }
   }
+  if (ntie)
+    r.label("wall-position-in-lower-sibling(tie)");
+  if (nskipped)
+    r.label("query-in-open-known-class-skipped");
   if (nwall)
     r.label("query-on-leaf-wall");
   if (nblockwall)
     r.label("query-on-block-wall");
   // an unknown failure has priority over a known one
   for (auto &f : fails)
-    if (!f.known) {
+    if (f.known.empty()) {
       r.fail(f.msg);
       return r;
     }
   if (!fails.empty()) {
-    r.fail(fails[0].msg);
-    r.known = KNOWN_F8;
+    // if several known classes are hit, report one that is not (yet) excluded
+    size_t pick = 0;
+    for (size_t k = 0; k < fails.size(); ++k)
+      if (!open_known.count(fails[k].known)) {
+        pick = k;
+        break;
+      }
+    r.fail(fails[pick].msg);
+    r.known = fails[pick].known;
   }
   return r;
 }
@@ -998,7 +1169,7 @@ VResult o_cart_locate(const VCase &c) {
   }
   const double scale = g.scale();
   const int nq = (int)c.dv("qsel").size();
-  int nlower = 0, nwallq = 0;
+  int nlower = 0, nwallq = 0, nupper = 0;
   for (int q = 0; q < nq; ++q) {
     size_t li = std::min(N - 1, (size_t)(c.d("qsel", q) * N));
     int64_t idx[3];
@@ -1008,7 +1179,7 @@ VResult o_cart_locate(const VCase &c) {
     // geometry the grid reports for this cell against the real-number box
     const Box<> gb = grid.get_cell(li);
     double x[3];
-    bool onwall[3] = {false, false, false};
+    bool onwall[3] = {false, false, false}, below[3] = {false, false, false};
     for (int i = 0; i < 3; ++i) {
       const LD lo = (LD)g.a[i] + (LD)g.L[i] * (LD)idx[i] / (LD)n[i];
       const LD hi = (LD)g.a[i] + (LD)g.L[i] * (LD)(idx[i] + 1) / (LD)n[i];
@@ -1026,23 +1197,34 @@ VResult o_cart_locate(const VCase &c) {
         x[i] = a;
         onwall[i] = true;
       } else if (mode == 2) {
-        const double top = std::min(a + s, (double)hi);
-        x[i] = std::nextafter(top, -INFINITY);
-        if ((LD)x[i] >= hi)
-          x[i] = std::nextafter(x[i], -INFINITY);
+        // the largest double strictly below the upper wall, whichever way the
+        // wall is computed (top of this cell, anchor of the next, real number)
+        double top = std::min(a + s, (double)hi);
+        if (idx[i] + 1 < n[i]) {
+          const size_t stride = (size_t)(i == 0 ? n[1] * n[2] : (i == 1 ? n[2] : 1));
+          top = std::min(top, grid.get_cell(li + stride).get_anchor()[i]);
+        } else
+          top = std::min(top, g.top(i));
+        x[i] = just_below(g, i, top);
         if (x[i] < a)
           x[i] = a;
+        below[i] = true;
       } else
         x[i] = a + (0.05 + 0.9 * f) * s;
       x[i] = clamp_half_open(g, i, x[i]);
     }
     const bool anywall = onwall[0] || onwall[1] || onwall[2];
     nwallq += anywall;
+    c16::announce(cart_fp_index_rounds_up(g, n, x) ? KNOWN_CART_UP : "");
     const size_t got = grid.get_cell_index(Vec(x[0], x[1], x[2]));
+    c16::announce("");
     if (got == li)
       continue;
     // which cell did we get?  On an exact wall the lower neighbour also contains
-    // the position in its closed box: that is a tie of the geometry, not an error
+    // the position in its closed box, and the cell boxes themselves are only
+    // defined up to an ulp (anchor + side of a cell and the anchor of the next
+    // differ in the last bit): a position within 4 ulp below a wall may be
+    // assigned to the upper neighbour.  Both are ties of the geometry.
     bool tie = got < N;
     if (tie) {
       int64_t gidx[3];
@@ -1052,14 +1234,22 @@ VResult o_cart_locate(const VCase &c) {
       for (int i = 0; i < 3; ++i) {
         if (gidx[i] == idx[i])
           continue;
-        if (!(onwall[i] && gidx[i] == idx[i] - 1))
-          tie = false;
+        if (onwall[i] && gidx[i] == idx[i] - 1)
+          continue;
+        if (below[i] && gidx[i] == idx[i] + 1 &&
+            x[i] >= grid.get_cell(got).get_anchor()[i] - 4. * EPS * (scale + g.L[i])) {
+          ++nupper;
+          continue;
+        }
+        tie = false;
       }
     }
     if (tie) {
       ++nlower;
       continue;
     }
+    if (cart_fp_index_rounds_up(g, n, x))
+      r.known = KNOWN_CART_UP;
     r.fail(fmt("get_cell_index(%.17g, %.17g, %.17g) = %zu, but the position lies in cell %zu "
                "= (%lld,%lld,%lld) with anchor %.17g %.17g %.17g, sides %.17g %.17g %.17g",
                x[0], x[1], x[2], got, li, (long long)idx[0], (long long)idx[1],
@@ -1071,6 +1261,8 @@ VResult o_cart_locate(const VCase &c) {
     r.label("query-on-cell-wall");
   if (nlower)
     r.label("wall-position-in-lower-cell(tie)");
+  if (nupper)
+    r.label("ulp-below-wall-in-upper-cell(tie)");
 
   // neighbours of a few cells: 6 entries, mutual, opposite normals, periodic wrap
   for (int q = 0; q < std::min(nq, 8); ++q) {
@@ -1183,43 +1375,58 @@ void gen_rays(VCase &c, const Geo &g, const std::vector<BCell> &cells, int nray,
         r.p[i] = g.a[i];
         break;
       default:
-        r.p[i] = std::nextafter(g.top(i), -INFINITY);
+        r.p[i] = g.top(i); // clamped below like the photon producers do
       }
       r.p[i] = clamp_half_open(g, i, r.p[i]);
     }
     // target: a travel length, converted to an optical depth with the model
-    r.tau = 1e300;
-    const LD lexit = ray_exit(g, r);
-    const bool noexit = std::isinf((double)lexit);
-    RayExpect full = ray_expect(cells, g, r); // tau = huge: runs to the exit / cap
-    LD ltarget;
-    int mode = vr::weighted({6, 3, 2});
-    if (noexit)
-      mode = mode == 1 ? 0 : mode;
-    const LD lref = noexit ? (LD)(3. * g.diag()) : lexit;
-    if (mode == 0)
-      ltarget = lref * (LD)vr::uni();
-    else if (mode == 1)
-      ltarget = lref * (LD)(1.02 + 2. * vr::uni());
-    else {
-      // exactly at a wall crossing of the ray
-      const std::vector<Seg> segs = ray_segments(cells, g, r, lref);
-      if (segs.empty())
-        ltarget = lref * 0.5L;
-      else
-        ltarget = segs[vr::irange(0, (int64_t)segs.size() - 1)].t1;
-    }
-    // optical depth along [0, ltarget]
     LD tau = 0.L;
-    {
-      const std::vector<Seg> segs = ray_segments(cells, g, r, std::max(ltarget, (LD)1e-300));
-      for (const Seg &s : segs)
-        tau += (LD)cells[s.cell].kappa * (s.t1 - s.t0);
+    int mode = 0;
+    for (int attempt = 0; attempt < 2; ++attempt) {
+      const LD lexit = ray_exit(g, r);
+      // "no exit": none at all, or (grazing direction through periodic
+      // dimensions) only after a huge number of wraps
+      const bool noexit = !(lexit <= (LD)(3. * g.diag()));
+      LD ltarget;
+      mode = vr::weighted({6, 3, 2});
+      if (noexit && mode == 1)
+        mode = 0;
+      const LD lref = noexit ? (LD)(3. * g.diag()) : lexit;
+      if (mode == 0)
+        ltarget = lref * (LD)vr::uni();
+      else if (mode == 1)
+        ltarget = lref;
+      else {
+        // exactly at a wall crossing of the ray
+        const std::vector<Seg> segs = ray_segments(cells, g, r, lref);
+        if (segs.empty())
+          ltarget = lref * 0.5L;
+        else
+          ltarget = segs[vr::irange(0, (int64_t)segs.size() - 1)].t1;
+      }
+      // optical depth along [0, ltarget]
+      tau = 0.L;
+      {
+        const std::vector<Seg> segs = ray_segments(cells, g, r, std::max(ltarget, (LD)1e-300));
+        for (const Seg &s : segs)
+          tau += (LD)cells[s.cell].kappa * (s.t1 - s.t0);
+      }
+      if (mode == 1) // beyond the exit
+        tau = (tau > 0.L ? tau : 1.L) * (LD)(1.02 + 2. * vr::uni());
+      if (tau > 0.L)
+        break;
+      if (!noexit) {
+        tau = 1e-3L; // transparent so far: any positive optical depth will do
+        break;
+      }
+      // a ray that can never leave the box and sees no opacity would never
+      // terminate (not a defect): give it a component along every axis
+      r.d[0] = 0.6 * (r.d[0] < 0. ? -1 : 1);
+      r.d[1] = 0.48 * (r.d[1] < 0. ? -1 : 1);
+      r.d[2] = 0.64 * (r.d[2] < 0. ? -1 : 1);
+      dcls = "dir-generic";
+      tau = 1e-3L;
     }
-    if (mode == 1)
-      tau = (full.tau_used > 0.L ? full.tau_used : 1.L) * (LD)(1.02 + 2. * vr::uni());
-    if (!(tau > 0.L))
-      tau = 1e-3L; // transparent so far: any positive optical depth
     r.tau = (double)tau;
     for (int i = 0; i < 3; ++i) {
       P.push_back(r.p[i]);
@@ -1277,13 +1484,12 @@ std::string compare_ray(const std::vector<BCell> &cells, const Geo &g, const Ray
                         bool have_boxes) {
   const double scale = g.scale() + (double)std::min(e.l_end, (LD)1e300);
   const double dmin = dmin_of(ray);
-  const double tol = 64. * EPS * scale * (double)(e.nseg + 8) / dmin + extra_tol;
+  double tol = 64. * EPS * scale * (double)(e.nseg + 8) / dmin + extra_tol;
   LD sdep = 0.L, stau = 0.L, kmax = 0.L;
   for (size_t i = 0; i < cells.size(); ++i) {
     sdep += dep[i];
     stau += (LD)cells[i].kappa * (LD)dep[i];
-    if (dep[i] != 0.)
-      kmax = std::max(kmax, (LD)cells[i].kappa);
+    kmax = std::max(kmax, (LD)cells[i].kappa);
     if (!(dep[i] >= -tol) || !std::isfinite(dep[i]))
       return fmt("cell %zu received the path length %.17g", i, dep[i]);
   }
@@ -1331,21 +1537,41 @@ std::string compare_ray(const std::vector<BCell> &cells, const Geo &g, const Ray
     r.label("ray-in-wall-plane(tierA-only)");
     return "";
   }
-  const bool decided = std::abs(e.l_abs - e.l_exit) > tol || std::isinf((double)e.l_exit) ||
-                       std::isinf((double)e.l_abs);
-  if (!decided) {
+  // conditioning of "where is tau reached": tau(l) may be flat (transparent
+  // cells) or shallow around the target
+  LD kall = 0.L;
+  for (const Seg &sg : e.segs)
+    kall = std::max(kall, (LD)cells[sg.cell].kappa);
+  const LD dtau = (LD)tol * std::max(kall, (LD)1e-300) + 64. * EPS * (LD)ray.tau * (e.nseg + 8);
+  const LD l_lo = std::min(l_of_tau(e.segs, cells, (LD)ray.tau - dtau), e.l_exit);
+  const LD l_hi = std::min(l_of_tau(e.segs, cells, (LD)ray.tau + dtau), e.l_exit);
+  const bool abs_lo = l_lo < e.l_exit - tol, abs_hi = l_hi < e.l_exit - tol;
+  if (abs_lo != abs_hi || (!abs_lo && std::abs(l_lo - e.l_exit) <= tol && l_lo < e.l_exit)) {
     r.label("ambiguous-absorbed-at-exit");
     return "";
   }
+  if (std::isinf((double)l_hi) || l_hi - l_lo > 1e-7L * (LD)g.diag()) {
+    r.label("ambiguous-tau-on-plateau");
+    return "";
+  }
+  tol += (double)(l_hi - l_lo);
   const bool exp_abs = e.l_abs < e.l_exit;
   if (exp_abs != absorbed)
     return fmt("oracle: optical depth %.17g is reached after %.17Lg m, the box is left after "
                "%.17Lg m => %s; the grid reports %s",
                ray.tau, e.l_abs, e.l_exit, exp_abs ? "absorbed" : "escaped",
                absorbed ? "absorbed" : "escaped");
-  if (std::abs(sdep - e.l_end) > tol)
-    return fmt("sum of deposited path lengths %.17Lg != travelled length %.17Lg (tolerance %.3g)",
-               sdep, e.l_end, tol);
+  if (std::abs(sdep - e.l_end) > tol) {
+    std::string dump;
+    int nd = 0;
+    for (size_t i = 0; i < cells.size() && nd < 12; ++i)
+      if (dep[i] != 0. || e.path[i] != 0.L) {
+        dump += fmt(" [cell %zu kappa %.6g: deposited %.9g, oracle %.9Lg]", i, cells[i].kappa, dep[i], e.path[i]);
+        ++nd;
+      }
+    return fmt("sum of deposited path lengths %.17Lg != travelled length %.17Lg (tolerance %.3g);%s",
+               sdep, e.l_end, tol, dump.c_str());
+  }
   for (size_t i = 0; i < cells.size(); ++i)
     if (std::abs((LD)dep[i] - e.path[i]) > tol)
       return fmt("cell %zu: deposited path %.17g, oracle (slab intersection) %.17Lg, "
@@ -1428,7 +1654,18 @@ VResult o_cart_ray(const VCase &c) {
       set_opacity(DensityGrid::iterator(i, grid), op[i]);
     Photon ph = make_photon(ray);
     const Photon ph0 = ph;
-    DensityGrid::iterator it = grid.interact(ph, ray.tau);
+    const bool start_rounds_up = cart_fp_index_rounds_up(g, n, ray.p);
+    DensityGrid::iterator it = grid.end();
+    try {
+      c16::announce(start_rounds_up ? KNOWN_CART_UP : "");
+      it = grid.interact(ph, ray.tau);
+      c16::announce("");
+    } catch (const VerifAbort &e) {
+      r.fail(fmt("ray %d: interact aborts for a start position inside the box: %s", k, e.msg.c_str()));
+      if (start_rounds_up)
+        r.known = KNOWN_CART_UP;
+      return r;
+    }
     const bool absorbed = it != grid.end();
     std::vector<double> dep(N);
     for (size_t i = 0; i < N; ++i)
@@ -1452,8 +1689,12 @@ VResult o_cart_ray(const VCase &c) {
                                         absorbed ? (int)it.get_index() : -1, xend, r, 0., true);
     if (!msg.empty()) {
       r.fail(fmt("ray %d: ", k) + msg);
+      if (start_rounds_up)
+        r.known = KNOWN_CART_UP;
       return r;
     }
+    if (start_rounds_up)
+      continue;
     // integrate_optical_depth: total optical depth to the box boundary
     if (!anyper) {
       Ray full = ray;
@@ -1473,6 +1714,424 @@ VResult o_cart_ray(const VCase &c) {
                    k, tot, ef.tau_used, tolt));
         return r;
       }
+    }
+  }
+  return r;
+}
+
+
+// ---------------------------------------------------------------------------
+//                 sub-check amr_ray (AMRDensityGrid::interact)
+// ---------------------------------------------------------------------------
+struct AmrSetup {
+  Geo g;
+  int nb[3];
+  int level0;
+  MTree M;           // after stage 0 and stage 1
+  std::vector<int> lv;
+  std::vector<BCell> cells;
+  std::vector<Opac> op;
+  int maxlevel, minlevel;
+};
+
+// decomposition of the requested cell numbers into blocks and a base level
+// (documented in the AMRDensityGrid constructor)
+void amr_decompose(const int64_t ncell[3], int nb[3], int &level0) {
+  int64_t p2 = 1ll << 40;
+  for (int i = 0; i < 3; ++i) {
+    int64_t n = ncell[i], f = 1;
+    while (n % 2 == 0) {
+      n /= 2;
+      f *= 2;
+    }
+    p2 = std::min(p2, f);
+  }
+  level0 = 0;
+  for (int i = 0; i < 3; ++i)
+    nb[i] = (int)(ncell[i] / p2);
+  while (p2 > 1) {
+    p2 >>= 1;
+    ++level0;
+  }
+}
+
+void amr_apply_targets(MTree &M, const std::vector<int64_t> &tg, int stage) {
+  for (size_t t = 0; t + 4 < tg.size() + 1; t += 5) {
+    if (tg[t + 4] > stage)
+      continue;
+    const int64_t k[3] = {tg[t], tg[t + 1], tg[t + 2]};
+    for (;;) {
+      const int leaf = M.leaf_of_lattice(k, LAT);
+      if (M.nodes[leaf].level >= tg[t + 3])
+        break;
+      M.split(leaf);
+    }
+  }
+}
+
+AmrSetup amr_setup(const VCase &c) {
+  AmrSetup s;
+  s.g = geo_of(c);
+  int64_t ncell[3];
+  for (int i = 0; i < 3; ++i)
+    ncell[i] = c.i("ncell", i);
+  amr_decompose(ncell, s.nb, s.level0);
+  s.M.init(s.nb);
+  for (int rt : std::vector<int>(s.M.roots))
+    s.M.split_all(rt, s.level0);
+  amr_apply_targets(s.M, c.iv("targets"), 1);
+  s.lv = s.M.leaves();
+  const double sHe = c.d("sHe");
+  const double lscale = std::max(s.g.L[0], std::max(s.g.L[1], s.g.L[2]));
+  s.maxlevel = 0;
+  s.minlevel = 99;
+  for (size_t j = 0; j < s.lv.size(); ++j) {
+    BCell b;
+    s.M.real_box(s.lv[j], s.g, b.lo, b.hi);
+    const Opac o = opac_of((uint64_t)c.i("kseed"), j, c.i("transparent") != 0, lscale);
+    b.kappa = o.n * (SIGMA_H * o.xH + sHe * o.xHe);
+    s.cells.push_back(b);
+    s.op.push_back(o);
+    s.maxlevel = std::max(s.maxlevel, s.M.nodes[s.lv[j]].level);
+    s.minlevel = std::min(s.minlevel, s.M.nodes[s.lv[j]].level);
+  }
+  return s;
+}
+
+VCase gen_amr_ray() {
+  VCase c;
+  c.S("boxclass", gen_box(c));
+  gen_periodic(c);
+  int64_t nb[3];
+  gen_counts(nb, 5, 30);
+  int64_t level0 = vr::weighted({4, 4, 1});
+  while (nb[0] * nb[1] * nb[2] * (1ll << (3 * level0)) > 250)
+    --level0;
+  c.I("ncell", {nb[0] << level0, nb[1] << level0, nb[2] << level0});
+  int dnb[3], dl;
+  const int64_t nc[3] = {nb[0] << level0, nb[1] << level0, nb[2] << level0};
+  amr_decompose(nc, dnb, dl);
+  // refinement targets: lattice point (midpoint lattice of depth LAT in a
+  // block), depth, stage (0: applied by initialize, 1: applied by reset_grid)
+  const int ntarget = (int)vr::irange(0, 3);
+  std::vector<int64_t> tg;
+  for (int t = 0; t < ntarget; ++t) {
+    for (int i = 0; i < 3; ++i)
+      tg.push_back(vr::irange(0, ((int64_t)dnb[i] << LAT) - 1));
+    tg.push_back(vr::irange(dl + 1, std::min(8, dl + 4)));
+    tg.push_back(vr::coin(0.5));
+  }
+  c.I("targets", tg);
+  c.I("kseed", vr::irange(1, 1000000));
+  const double sHe = vr::coin(0.5) ? 0. : 0.37;
+  c.D("sHe", sHe);
+  const Geo g = geo_of(c);
+  const bool allper = g.per[0] && g.per[1] && g.per[2];
+  c.I("transparent", allper ? 0 : vr::coin(0.7));
+  const AmrSetup s = amr_setup(c);
+  gen_rays(c, g, s.cells, 2, sHe);
+  // rays of an OPEN known-finding class are only traced in this fraction of
+  // the cases (some of those classes never terminate)
+  c.I("probe_known", vr::coin(0.04));
+  return c;
+}
+
+class HistoryRefinementScheme : public AMRRefinementScheme {
+public:
+  Geo g;
+  int nb[3];
+  std::vector<int64_t> tg;
+  int *stage;
+  virtual bool refine(uint_fast8_t level, DensityGrid::iterator &cell) const {
+    const Vec m = cell.get_cell_midpoint();
+    for (size_t t = 0; t + 4 < tg.size() + 1; t += 5) {
+      if (tg[t + 4] > *stage || (int)level >= tg[t + 3])
+        continue;
+      bool in = true;
+      for (int i = 0; i < 3; ++i) {
+        const double p = g.a[i] + ((double)tg[t + i] + 0.5) * g.L[i] / ((double)nb[i] * (double)(1 << LAT));
+        const double h = 0.5 * g.L[i] / nb[i] / (double)(1 << level);
+        if (!(std::abs(p - m[i]) < h))
+          in = false;
+      }
+      if (in)
+        return true;
+    }
+    return false;
+  }
+};
+
+VResult o_amr_ray(const VCase &c) {
+  VResult r;
+  const AmrSetup s = amr_setup(c);
+  const Geo &g = s.g;
+  r.label(c.s("boxclass"));
+  label_ray_classes(c, r);
+  const double sHe = c.d("sHe");
+  int stage = 0;
+  HistoryRefinementScheme *scheme = new HistoryRefinementScheme();
+  scheme->g = g;
+  for (int i = 0; i < 3; ++i)
+    scheme->nb[i] = s.nb[i];
+  scheme->tg = c.iv("targets");
+  scheme->stage = &stage;
+  HomogeneousDensityFunction df(1., 2000.);
+  df.initialize();
+  AMRDensityGrid grid(g.box(),
+                      CoordinateVector<uint_fast32_t>(c.i("ncell", 0), c.i("ncell", 1), c.i("ncell", 2)),
+                      scheme, 1, CoordinateVector<bool>(g.per[0], g.per[1], g.per[2]), false, nullptr);
+  std::pair<cellsize_t, cellsize_t> block = std::make_pair(0, grid.get_number_of_cells());
+  grid.initialize(block, df);
+  stage = 1;
+  grid.reset_grid(df);
+  bool stage1 = false;
+  for (size_t t = 4; t < scheme->tg.size(); t += 5)
+    stage1 |= scheme->tg[t] == 1;
+  if (stage1)
+    r.label("refined-in-reset_grid");
+  const size_t N = s.lv.size();
+  if (grid.get_number_of_cells() != N) {
+    r.fail(fmt("get_number_of_cells() = %zu after refinement, the model has %zu leaves",
+               (size_t)grid.get_number_of_cells(), N));
+    return r;
+  }
+  // map cell index -> model leaf through the midpoint; must be a bijection
+  std::map<std::vector<int64_t>, int> byco;
+  for (size_t j = 0; j < N; ++j) {
+    const MNode &n = s.M.nodes[s.lv[j]];
+    byco[{n.level, s.M.gc(s.lv[j], 0), s.M.gc(s.lv[j], 1), s.M.gc(s.lv[j], 2)}] = (int)j;
+  }
+  std::vector<int> leaf_of_index(N, -1), seen(N, 0);
+  size_t cnt = 0;
+  LD vsum = 0.L;
+  for (auto it = grid.begin(); it != grid.end(); ++it) {
+    if (++cnt > N)
+      break;
+    const size_t i = it.get_index();
+    const Vec m = it.get_cell_midpoint();
+    // descend the model with the midpoint (far from all walls)
+    int64_t k[3];
+    for (int d = 0; d < 3; ++d)
+      k[d] = (int64_t)std::floor((double)(((LD)m[d] - (LD)g.a[d]) / (LD)g.L[d] * (LD)s.nb[d] * (LD)(1 << LAT)));
+    bool inside = true;
+    for (int d = 0; d < 3; ++d)
+      if (k[d] < 0 || k[d] >= ((int64_t)s.nb[d] << LAT))
+        inside = false;
+    if (!inside) {
+      r.fail(fmt("cell %zu: midpoint (%g, %g, %g) outside the box", i, m[0], m[1], m[2]));
+      return r;
+    }
+    const int leaf = s.M.leaf_of_lattice(k, LAT);
+    const MNode &n = s.M.nodes[leaf];
+    const int j = byco[{n.level, s.M.gc(leaf, 0), s.M.gc(leaf, 1), s.M.gc(leaf, 2)}];
+    // midpoint and volume must be those of the model leaf
+    for (int d = 0; d < 3; ++d) {
+      const LD mid = 0.5L * (s.cells[j].lo[d] + s.cells[j].hi[d]);
+      if (std::abs((LD)m[d] - mid) > 64. * EPS * (g.scale() + g.L[d])) {
+        r.fail(fmt("cell %zu: midpoint[%d] = %.17g, model leaf (level %d) has %.17Lg", i, d, m[d], n.level, mid));
+        return r;
+      }
+    }
+    const LD vol = (s.cells[j].hi[0] - s.cells[j].lo[0]) * (s.cells[j].hi[1] - s.cells[j].lo[1]) *
+                   (s.cells[j].hi[2] - s.cells[j].lo[2]);
+    if (std::abs((LD)it.get_volume() - vol) > 64. * EPS * vol) {
+      r.fail(fmt("cell %zu: volume %.17g, model leaf (level %d) has %.17Lg", i, it.get_volume(), n.level, vol));
+      return r;
+    }
+    vsum += it.get_volume();
+    if (i >= N || seen[j]) {
+      r.fail(fmt("cell index %zu: model leaf %d is visited twice by the iteration (or index out of range)", i, j));
+      return r;
+    }
+    seen[j] = 1;
+    leaf_of_index[i] = j;
+  }
+  if (cnt != N) {
+    r.fail(fmt("iteration begin..end visits %zu cells, the grid has %zu", cnt, N));
+    return r;
+  }
+  if (std::abs(vsum - (LD)g.volume()) > 8. * EPS * g.volume() * (N + 8)) {
+    r.fail(fmt("sum of cell volumes %.17Lg != box volume %.17g", vsum, g.volume()));
+    return r;
+  }
+  std::vector<size_t> index_of_leaf(N);
+  for (size_t i = 0; i < N; ++i)
+    index_of_leaf[leaf_of_index[i]] = i;
+
+  r.label(fmt("depth-%d", std::min(s.maxlevel, 6)));
+  const bool anyper = g.per[0] || g.per[1] || g.per[2];
+  const bool probe_known = c.i("probe_known") != 0;
+  const auto open_known = vr::split_env("VERIF_KNOWN");
+  const int nray = (int)c.dv("ray_tau").size();
+  for (int k = 0; k < nray; ++k) {
+    const Ray ray = ray_of(c, k, sHe);
+    const RayExpect e = ray_expect(s.cells, g, ray);
+    if (e.too_long) {
+      r.label("skipped-unbounded-transparent-ray");
+      continue;
+    }
+    // known-finding classes of the start position lookup
+    std::string known;
+    if (amr_fp_index_overflow(s.M, g, ray.p))
+      known = KNOWN_AMR_UP;
+    else {
+      for (int i = 0; i < 3; ++i) {
+        const LD bs = (LD)g.L[i] / (LD)s.nb[i];
+        const LD q = ((LD)ray.p[i] - (LD)g.a[i]) / bs;
+        const int64_t bt = (int64_t)std::floor((double)(q + 1e-12L));
+        // on a block wall (within rounding) and the floating point index is one too low
+        if (std::abs(q - std::round(q)) < 1e-12L && bt >= 1 &&
+            fp_block_index(g, s.nb, i, ray.p[i]) + 1 == (uint32_t)bt)
+          known = KNOWN_F8;
+      }
+    }
+    // matcher of the periodic-wrap finding: on the oracle path the ray crosses
+    // a periodic face into a leaf of a higher level than the one it leaves
+    if (known.empty() && anyper) {
+      const LD tw = 1e-9L * (LD)g.diag();
+      // crossing times of periodic faces on [0, l_end]: ends of segments and t = 0
+      std::vector<LD> tws;
+      tws.push_back(0.L);
+      // (window: up to where the optical depth is reached for certain)
+      const LD lwin = std::min(l_of_tau(e.segs, s.cells, (LD)ray.tau * (1.L + 1e-9L)), e.l_exit);
+      for (const Seg &A : e.segs)
+        if (A.t1 <= lwin + tw)
+          tws.push_back(A.t1);
+      for (const LD t : tws) {
+        bool onface = false;
+        for (int i = 0; i < 3; ++i) {
+          if (!g.per[i] || ray.d[i] == 0.)
+            continue;
+          const LD q = ((LD)ray.p[i] + t * (LD)ray.d[i] - (LD)g.a[i]) / (LD)g.L[i];
+          if (std::abs(q - std::round(q)) < 1e-9L)
+            onface = true;
+        }
+        if (!onface)
+          continue;
+        int before = 99, after = -1;
+        for (const Seg &B : e.segs) {
+          if (std::abs(B.t1 - t) <= tw)
+            before = std::min(before, s.M.nodes[s.lv[B.cell]].level);
+          if (std::abs(B.t0 - t) <= tw)
+            after = std::max(after, s.M.nodes[s.lv[B.cell]].level);
+        }
+        if (t == 0.L) // the leaf that contains the start position
+          for (size_t j = 0; j < N; ++j) {
+            bool in = true;
+            for (int i = 0; i < 3; ++i)
+              in &= (LD)ray.p[i] >= s.cells[j].lo[i] - tw && (LD)ray.p[i] <= s.cells[j].hi[i] + tw;
+            if (in)
+              before = std::min(before, s.M.nodes[s.lv[j]].level);
+          }
+        if (after > before && known.empty())
+          known = KNOWN_AMR_WRAP;
+        // the cell before the crossing spans the whole periodic dimension
+        for (int i = 0; i < 3; ++i) {
+          if (!g.per[i] || ray.d[i] == 0. || s.nb[i] != 1 || before != 0)
+            continue;
+          const LD q = ((LD)ray.p[i] + t * (LD)ray.d[i] - (LD)g.a[i]) / (LD)g.L[i];
+          if (std::abs(q - std::round(q)) < 1e-9L)
+            known = KNOWN_AMR_SELF;
+        }
+      }
+    }
+    if (!known.empty() && !probe_known && open_known.count(known)) {
+      r.label("ray-in-open-known-class-skipped");
+      continue;
+    }
+    for (size_t i = 0; i < N; ++i)
+      set_opacity(DensityGrid::iterator(i, grid), s.op[leaf_of_index[i]]);
+    Photon ph = make_photon(ray);
+    DensityGrid::iterator it = grid.end();
+    try {
+      c16::announce(known);
+      it = grid.interact(ph, ray.tau);
+      c16::announce("");
+    } catch (const VerifAbort &e2) {
+      c16::announce("");
+      r.fail(fmt("ray %d: interact aborts for a start position inside the box: %s", k, e2.msg.c_str()));
+      r.known = known;
+      return r;
+    }
+    const bool absorbed = it != grid.end();
+    if (!absorbed && known.empty() && e.l_abs < e.l_exit) {
+      // matcher: the oracle absorbs the photon in the cell that touches the
+      // open face through which the ray leaves the box
+      const LD tw = 1e-9L * (LD)g.diag();
+      for (const Seg &sg : e.segs)
+        if (sg.t0 - tw <= e.l_abs && e.l_abs <= sg.t1 + tw && sg.t1 >= e.l_exit - tw)
+          known = KNOWN_AMR_LAST;
+    }
+    if (!absorbed && known.empty()) {
+      // signature of the same finding for rays the oracle cannot place (ties):
+      // reported as escaped although the photon stopped strictly inside the box
+      // after using up exactly its optical depth
+      LD stau = 0.L;
+      for (size_t i = 0; i < N; ++i)
+        stau += (LD)s.cells[leaf_of_index[i]].kappa *
+                (LD)DensityGrid::iterator(i, grid).get_mean_intensity(ION_H_n) / SIGMA_H;
+      const Vec xe0 = ph.get_position();
+      bool onface = false;
+      for (int i = 0; i < 3; ++i)
+        if (!g.per[i] && (std::abs(xe0[i] - g.a[i]) <= 1e-9 * g.L[i] ||
+                          std::abs(xe0[i] - (g.a[i] + g.L[i])) <= 1e-9 * g.L[i]))
+          onface = true;
+      if (!onface && std::abs(stau - (LD)ray.tau) <= 1e-9L * (LD)ray.tau)
+        known = KNOWN_AMR_LAST;
+    }
+    if (getenv("C16_DEBUG")) {
+      fprintf(stderr, "ray %d: l_abs %.12Lg l_exit %.12Lg absorbed %d known '%s'\n", k, e.l_abs, e.l_exit, (int)absorbed, known.c_str());
+      for (const Seg &sg : e.segs)
+        fprintf(stderr, "  seg [%.12Lg, %.12Lg] cell %d level %d kappa %g dep %g\n", sg.t0, sg.t1, sg.cell,
+                s.M.nodes[s.lv[sg.cell]].level, s.cells[sg.cell].kappa,
+                DensityGrid::iterator(index_of_leaf[sg.cell], grid).get_mean_intensity(ION_H_n));
+    }
+    std::vector<double> dep(N);
+    for (size_t i = 0; i < N; ++i)
+      dep[leaf_of_index[i]] = DensityGrid::iterator(i, grid).get_mean_intensity(ION_H_n) / SIGMA_H;
+    const Vec xe = ph.get_position();
+    const double xend[3] = {xe[0], xe[1], xe[2]};
+    bool wrap = false;
+    if (anyper)
+      for (int i = 0; i < 3; ++i) {
+        const LD x = (LD)ray.p[i] + e.l_end * (LD)ray.d[i];
+        if (g.per[i] && (x < (LD)g.a[i] || x >= (LD)g.a[i] + (LD)g.L[i]))
+          wrap = true;
+      }
+    if (wrap)
+      r.label("periodic-wrap-on-ray");
+    r.label(e.l_abs < e.l_exit ? "absorbed" : "escaped");
+    // leaf levels met on the ray
+    std::set<int> levels;
+    for (const Seg &sg : e.segs)
+      if (sg.t0 < e.l_end)
+        levels.insert(s.M.nodes[s.lv[sg.cell]].level);
+    if (levels.size() >= 2) {
+      r.label("two-leaf-levels-on-ray");
+      if (wrap)
+        r.label("two-leaf-levels-and-wrap");
+    }
+    bool odd = false;
+    for (int i = 0; i < 3; ++i)
+      odd |= (s.nb[i] > 1 && s.nb[i] % 2 == 1);
+    if (odd)
+      r.label("odd-block-factor");
+    if ((s.maxlevel >= 2 && levels.size() >= 2) || wrap || odd)
+      r.nontrivial = true;
+    int ret = -1;
+    if (absorbed) {
+      if (it.get_index() >= N) {
+        r.fail(fmt("ray %d: returned cell index %zu out of range", k, (size_t)it.get_index()));
+        r.known = known;
+        return r;
+      }
+      ret = leaf_of_index[it.get_index()];
+    }
+    const std::string msg = compare_ray(s.cells, g, ray, e, dep, absorbed, ret, xend, r, 0., true);
+    if (!msg.empty()) {
+      r.fail(fmt("ray %d: ", k) + msg);
+      r.known = known;
+      return r;
     }
   }
   return r;
@@ -1519,5 +2178,15 @@ int main(int argc, char **argv) {
        "tau reached before the exit, returned cell contains the end point. Non-trivial = the "
        "ray crosses >= 2 cells.",
        {{"periodic-wrap-on-ray", 0.05}, {"dir-axis", 0.05}}});
+  props.push_back(
+      {"amr_ray", 5000, gen_amr_ray, c16::guarded(o_amr_ray),
+       "AMRDensityGrid: requested cell numbers = (1..5 blocks per axis) << base level 0..2, "
+       "0..3 refinement targets (lattice midpoints, depth up to base+4 <= 8) applied half by "
+       "initialize() and half by reset_grid() through an AMRRefinementScheme, periodicity flags; "
+       "number of cells, iteration, midpoints / volumes of all cells against the integer tree "
+       "model (bijection), then 2 rays per case as in cart_ray through the leaf boxes of the "
+       "model. Non-trivial = (depth >= 2 and >= 2 leaf levels on the ray) or a periodic wrap on "
+       "the ray or an odd block factor.",
+       {{"two-leaf-levels-on-ray", 0.1}, {"periodic-wrap-on-ray", 0.05}, {"odd-block-factor", 0.2}}});
   return vr::vmain(argc, argv, "C16", props);
 }
